@@ -62,6 +62,13 @@ _ANY_FRAME = re.compile(r'#\d+ 0x[0-9a-f]+ in (\S+) ')
 def sanitizer_key(report, rc=None):
     """Stable signature naming the failing site: <tool>:<kind>@<innermost function in repo src>."""
     kind = None
+    mv = re.search(r'^==\d+== ([A-Z][^\n]*)\n==\d+==\s+(?:at|by) 0x[0-9A-F]+: (\S+)', report, re.M)
+    if mv and 'AddressSanitizer' not in report:
+        msg = re.sub(r'\d+', 'N', mv.group(1)).strip().replace(' ', '-')[:60]
+        fns = [m.group(1) for m in re.finditer(r'^==\d+==\s+(?:at|by) 0x[0-9A-F]+: (\S+) \((\S+?):\d+\)', report, re.M)
+               if not m.group(2).startswith(('vg_', 'drv.c', 'common.h'))]
+        lib = [f for f in fns if f not in ('malloc', 'calloc', 'realloc', 'free', 'strlen', 'memcpy', 'strncpy', 'strcmp', 'memmove', 'strcpy')]
+        return 'memcheck:%s@%s' % (msg, lib[0] if lib else (fns[0] if fns else '?'))
     mu = re.search(r'^\S*?([\w\-\.]+\.[ch]):\d+:\d+: runtime error: (.*)$', report, re.M)
     ma = re.search(r'ERROR: (AddressSanitizer|LeakSanitizer|ThreadSanitizer): ([A-Za-z0-9\-_ ]+?)(?: on | in |:|\n| \()', report)
     if mu and (not ma or mu.start() < ma.start()):
@@ -104,7 +111,14 @@ def sanitizer_key(report, rc=None):
 class Driver:
     """One worker process.  Not thread-safe; one per Python worker."""
 
-    def __init__(self, variant='asan', prog='drv', timeout=20.0, env=None, extra_defs=()):
+    def __init__(self, variant='asan', prog='drv', timeout=20.0, env=None, extra_defs=(), wrapper=()):
+        self.wrapper = list(wrapper)
+        if variant.startswith('memcheck:'):
+            # plain (uninstrumented) build under valgrind memcheck: uninitialised-value use, which ASan/UBSan cannot see
+            variant = variant.split(':', 1)[1]
+            self.wrapper = ['valgrind', '-q', '--error-exitcode=99', '--exit-on-first-error=yes', '--undef-value-errors=yes', '--track-origins=yes', '--num-callers=25',
+                            '--suppressions=' + os.path.join(_build.HARNESS, 'memcheck.supp')]
+            timeout = timeout * 15
         self.variant, self.prog, self.timeout = variant, prog, timeout
         self.exe = _build.build(variant, (prog,), extra_defs)[prog]
         self.scratch = tempfile.mkdtemp(prefix='mmdv-', dir=SCRATCH_ROOT)
@@ -123,7 +137,7 @@ class Driver:
     def _start(self):
         for f in glob.glob(os.path.join(self.scratch, 'san*')):
             os.unlink(f)
-        self.p = subprocess.Popen([self.exe], stdin=subprocess.PIPE, stdout=subprocess.PIPE,
+        self.p = subprocess.Popen(self.wrapper + [self.exe], stdin=subprocess.PIPE, stdout=subprocess.PIPE,
                                   stderr=subprocess.PIPE, env=self.env, bufsize=0, cwd=self.scratch)
 
     def close(self):
